@@ -263,7 +263,9 @@ impl DirectCacheManager {
             let mut buf = Vec::new();
             {
                 let mut writer = Writer::new(&mut buf);
-                let value_do = v.value.to_do(key);
+                let mut value_do = v.value.to_do(key);
+                // the absolute expire second (-1: never) is what load_snapshot_record reads back
+                value_do.timeout = v.expire;
                 writer.write_message(&value_do)?;
             }
             let record = SnapshotRecordDto {
